@@ -737,46 +737,74 @@ def r6_completion_source(facts, rep):
 
 
 def r6b_classifier(facts, rep):
-    """IoKind::get_result classifies a syscall result as Ok only under an equality test of its `res` parameter with a
-    non-negative constant (PAGE_SIZE, or 0 for a read at end of file): a negative or short result can never be `Ok`."""
+    """IoKind::get_result classifies a syscall result as Ok only for `res == PAGE_SIZE`, or `res == 0` for a read (end of
+    file): decided by ENUMERATION.  The function touches `res` only through comparisons with constants, so it is
+    interpreted (rules/minterp.py) for every variant of IoKind and for the constants it compares with, their neighbours and
+    extreme values; unknown values (errno) make a branch go both ways.  A negative or short result can never be `Ok`."""
+    import minterp
+
     body = facts.bodies.get("nomt::io::IoKind::get_result")
     if body is None:
         raise CheckBroken("ANCHOR-MISSING function nomt::io::IoKind::get_result")
+    adt = facts.adts.get("nomt::io::IoKind")
+    if adt is None:
+        raise CheckBroken("ANCHOR-MISSING type nomt::io::IoKind")
     short = "io::IoKind::get_result"
-    sites = []
+    # the page size, read off the constant operands of the function
+    consts = set()
+    page = None
     for b in range(body.n):
-        for s in body.stmts(b):
-            if s["k"] == "assign" and s["rv"]["k"] == "agg" and s["rv"].get("name") == "nomt::io::IoKindResult" and s["rv"].get("variant") == "Ok":
-                sites.append((b, s))
-    rep.floor("R6 IoKindResult::Ok construction sites", len(sites), 1)
-
-    def eq_tests():
-        """true targets of every switch on Eq(res, C), C a constant in 0..=i64::MAX"""
-        out = []
-        for sb in range(body.n):
-            t = body.term(sb)
-            if t["k"] != "switch":
+        for st in body.stmts(b):
+            if st["k"] != "assign":
                 continue
-            for r in trace(body, t["d"]):
-                if r.kind != "binop" or r.obj.get("k") != "bin" or r.obj.get("op") != "Eq":
-                    continue
-                has_res, cst = False, None
-                for o in (r.obj["a"], r.obj["b"]):
-                    for r2 in trace(body, o):
-                        if r2.kind == "param" and r2.what == 2 and not r2.fields:
-                            has_res = True
-                        elif r2.kind == "const" and r2.obj is not None and r2.obj.get("int") is not None:
-                            cst = int(r2.obj["int"])
-                if has_res and cst is not None and 0 <= cst < (1 << 63):
-                    zero = [tb for (v, tb) in t["vals"] if v == "0"]
-                    if len(t["vals"]) == 1 and zero and t["else"] != zero[0]:
-                        out.append(t["else"])
-        return out
-
-    tests = eq_tests()
+            rv = st["rv"]
+            for key in ("op", "a", "b"):
+                o = rv.get(key)
+                if isinstance(o, dict) and o.get("k") == "const" and o.get("int") is not None:
+                    v = minterp._wrap(int(o["int"]), o.get("ty", ""))
+                    consts.add(v)
+                    if "PAGE_SIZE" in (o.get("s") or "") or "PAGE_SIZE" in (o.get("uneval") or ""):
+                        page = v
+    if page is None:
+        # not mentioned in the classifier (any more): take the crate's constant from wherever it is used
+        for ob in facts.bodies.values():
+            if ob.crate != "nomt" or page is not None:
+                continue
+            for b in range(ob.n):
+                for st in ob.stmts(b):
+                    if st["k"] == "assign":
+                        for key in ("op", "a", "b"):
+                            o = st["rv"].get(key)
+                            if isinstance(o, dict) and o.get("k") == "const" and o.get("int") is not None and (o.get("s") == "nomt::io::PAGE_SIZE" or o.get("uneval") == "nomt::io::PAGE_SIZE"):
+                                page = int(o["int"])
+    if page is None:
+        raise CheckBroken("ANCHOR-MISSING constant nomt::io::PAGE_SIZE")
+    values = {-(1 << 63), -(1 << 31), -page, -2, -1, 0, 1, 2, page - 1, page, page + 1, 2 * page, (1 << 31), (1 << 62)}
+    for c in consts:
+        if isinstance(c, int) and abs(c) < (1 << 62):
+            values |= {c - 1, c, c + 1}
+    variants = [v["name"] for v in adt["variants"]]
     n = 0
-    for (b, s) in sites:
-        n += 1
-        ok = any(body.dominates(tgt, b) and len(body.preds()[tgt]) == 1 for tgt in tests)
-        rep.check(ok, "R6", short, "Ok-needs-exact-length", "IoKindResult::Ok is produced at a point that is not confined to `res == <expected length>`: a failed or short page I/O would be classified as success", site=s.get("ln"), detail="Ok only under res == const (>= 0)")
-    return n
+    bad = []
+    undecided = []
+    ok_seen = 0
+    for vi, vn in enumerate(variants):
+        for res in sorted(values):
+            outs = minterp.run(facts, body, {1: minterp.Variant("nomt::io::IoKind", vn, vi), 2: res})
+            n += 1
+            names = {o.name for o in outs if isinstance(o, minterp.Variant)}
+            if minterp.U in outs or not names:
+                undecided.append((vn, res))
+                continue
+            allowed = res == page or (res == 0 and vn.startswith("Read"))
+            if "Ok" in names:
+                ok_seen += 1
+                if not allowed:
+                    bad.append((vn, res))
+            elif allowed and names == {"Err"}:
+                pass
+    if undecided:
+        raise CheckBroken("R6: IoKind::get_result could not be evaluated for %s (it no longer is a pure function of comparisons)" % undecided[:3])
+    rep.check(not bad, "R6", short, "Ok-needs-exact-length", "IoKind::get_result classifies as Ok a result that is not a full page (nor 0 for a read): %s - a failed or short page I/O would be reported as success" % ", ".join("%s with res=%d" % x for x in bad[:4]), site=body.span, detail="evaluated for %d (variant, res) pairs: Ok only for res == %d, or res == 0 for reads" % (n, page))
+    rep.check(ok_seen > 0, "R6", short, "Ok-reachable", "IoKind::get_result never classifies a result as Ok", site=body.span, detail="%d (variant, res) pairs classified Ok" % ok_seen)
+    return 2
